@@ -1638,9 +1638,10 @@ func (t *Tokenizer) readPunctuation() (models.Token, error) {
 					cr, cs := utf8.DecodeRune(t.input[t.pos.Index:])
 					t.pos.AdvanceRune(cr, cs)
 				}
-				// Unterminated dollar-quoted string
+				// Unterminated dollar-quoted string: located, like every other unterminated
+				// literal, where the literal starts
 				return models.Token{}, errors.UnterminatedStringError(
-					models.Location{Line: t.pos.Line, Column: t.pos.Column},
+					t.toSQLPosition(Position{Index: tagStart - 1}),
 					string(t.input),
 				)
 			}
